@@ -4,6 +4,8 @@ package main
 // node-less graph whose output is the initializer.
 
 import (
+	"archive/zip"
+	"bytes"
 	"encoding/binary"
 	"encoding/json"
 	"fmt"
@@ -126,6 +128,46 @@ func execDecodeCase(c *Case) []ModeResult {
 		return collect([]string{"w"}, out)
 	})
 	res = append(res, ModeResult{"load+Run", Verdict(c, b), b.Short()})
+	// the same model through an archive: a Deflate-compressed entry (long payloads span several reads of the decompressor) and a
+	// stored one, loaded with NewModelFromZipFile
+	if c.Allowed.Must == "value" && len(x.Raw)+8*len(x.Vals) >= 20000 {
+		for _, method := range []uint16{zip.Deflate, zip.Store} {
+			method := method
+			bz := guard(func() Observation {
+				g := &onnx.GraphProto{Name: "g", Initializer: []*onnx.TensorProto{mkProtoX(x, "w")}, Output: []*onnx.ValueInfoProto{{Name: "w"}}}
+				bytesModel, err := proto.Marshal(mkModel(g, 13))
+				if err != nil {
+					return Observation{Kind: "harness", Note: err.Error()}
+				}
+				var buf bytes.Buffer
+				zw := zip.NewWriter(&buf)
+				w, err := zw.CreateHeader(&zip.FileHeader{Name: "model.onnx", Method: method})
+				if err != nil {
+					return Observation{Kind: "harness", Note: err.Error()}
+				}
+				if _, err := w.Write(bytesModel); err != nil {
+					return Observation{Kind: "harness", Note: err.Error()}
+				}
+				if err := zw.Close(); err != nil {
+					return Observation{Kind: "harness", Note: err.Error()}
+				}
+				zr, err := zip.NewReader(bytes.NewReader(buf.Bytes()), int64(buf.Len()))
+				if err != nil || len(zr.File) != 1 {
+					return Observation{Kind: "harness", Note: fmt.Sprint("zip reader: ", err)}
+				}
+				m, err := gonnx.NewModelFromZipFile(zr.File[0])
+				if err != nil {
+					return observeErr(err)
+				}
+				out, err := m.Run(gonnx.Tensors{})
+				if err != nil {
+					return observeErr(err)
+				}
+				return collect([]string{"w"}, out)
+			})
+			res = append(res, ModeResult{fmt.Sprintf("load-zip-method%d+Run", method), Verdict(c, bz), bz.Short()})
+		}
+	}
 	// decoding reads the description it is given and leaves it as it was: a second Model built from the SAME ModelProto object
 	// holds the same weight, and the proto still equals a copy taken before the first load
 	b2 := guard(func() Observation {
